@@ -69,7 +69,7 @@ def _spec(draw, tier):
         if a["key"] == "v":
             # a trainable initial voltage pinned exactly on a rate singularity of HH (-40, -55): a guard written
             # with a single `where` has a NaN gradient precisely there
-            a["init"] = [draw(st.one_of(st.sampled_from([-40.0, -55.0]), fl(-75.0, -50.0))) for _ in a["init"]]
+            a["init"] = [draw(st.one_of(st.sampled_from([-40.0, -55.0, -47.0, -45.0, -27.0, -20.0]), fl(-75.0, -50.0))) for _ in a["init"]]
     T = draw(st.integers(5, 20))
     spec["nsteps"] = T
     spec["stim_row"] = draw(st.integers(0, N - 1))
@@ -95,6 +95,16 @@ def _spec(draw, tier):
     spec["cat_rows"] = sorted(draw(st.sets(st.integers(0, N - 1), max_size=2))) if draw(st.integers(0, 2)) == 0 else []
     for r in spec["cat_rows"]:
         morph["v"][r] = draw(fl(-20.0, 10.0))
+    # further non-trainable background channels (their rate helpers have their own singular voltages: Na vt+13 = -47,
+    # vt+40 = -20, K vt+15 = -45, CaL -27 with the default vt); some of their compartments start exactly there
+    spec["bg"] = []
+    if draw(st.integers(0, 2)) == 0:
+        for mech in draw(st.lists(st.sampled_from(["Na", "K", "Km", "CaL"]), min_size=1, max_size=2, unique=True)):
+            rows_ = sorted(draw(st.sets(st.integers(0, N - 1), min_size=1, max_size=2)))
+            spec["bg"].append({"mech": mech, "rows": rows_})
+            sing = {"Na": [-47.0, -20.0], "K": [-45.0], "CaL": [-27.0], "Km": []}[mech]
+            if sing and draw(st.booleans()):
+                morph["v"][rows_[0]] = draw(st.sampled_from(sing))
     spec["phase"] = [draw(fl(0.1, 3.0)) for _ in range(3)]
     spec["dirs"] = [[draw(fl(-1.0, 1.0)) for _ in range(24)] for _ in range(2)]
     return spec
@@ -132,6 +142,9 @@ def judge(spec, tier="quick"):
             from jaxley.channels import CaT, Leak
             gn.view_of(m, spec["cat_rows"]).insert(CaT())
             gn.view_of(m, spec["cat_rows"]).insert(Leak())
+        for bgc in spec.get("bg", []):
+            import jaxley.channels as jc_
+            gn.view_of(m, bgc["rows"]).insert(getattr(jc_, bgc["mech"])())
         for a in spec["assignments"]:
             v = c10.the_view(m, spec, a)
             init = [float(x) if _scale_kind(a["key"])[0] == "mul" else float(np.clip(x, 0.15, 0.85) if a["key"] != "v" else x) for x in a["init"]]
@@ -225,6 +238,8 @@ def judge(spec, tier="quick"):
     out.classes.append(spec["solver"] + "/" + kw["voltage_solver"])
     if spec.get("cat_rows"):
         out.classes.append("CaT on depolarised compartments (clipped exponentials)")
+    for bgc in spec.get("bg", []):
+        out.classes.append("background " + bgc["mech"])
     if any(v in (-40.0, -55.0) for v in spec["morph"]["v"]) and spec["hh_rows"]:
         out.classes.append("initial v on a rate singularity")
     for name, d in dirs:
